@@ -2,7 +2,7 @@
 From CV Require Import Proofs.SchedP5.
 From CV Require Import Model.Base Model.Events Model.Contract Model.Normalize Proofs.BaseP Proofs.NormalizeP Proofs.NormalizeP2
   Proofs.NormalizeP3 Proofs.NormalizeP5 Proofs.NormalizeP6.
-From CV Require Proofs.NormalizeP4h Proofs.NormalizeP7.
+From CV Require Proofs.NormalizeP4h Proofs.NormalizeP7 Proofs.StatsP3.
 From CV Require Proofs.Compose Proofs.PipelineP2.
 From Coq Require Import Permutation.
 
@@ -170,3 +170,13 @@ Example C11_attempt_order_nonvacuous :
   contract (map snd NormalizeP7.ex7) = true /\
   length (filter (fun e => NormalizeP7.same_att 1 None 10 (Some (1, 0)) (snd e)) NormalizeP7.ex7) <> 0%nat.
 Proof. vm_compute. split; [reflexivity|discriminate]. Qed.
+
+(* ... and even PER SCENARIO PATH (all attempts of one scenario together): the contract fixes the order of attempts only
+   along a retry chain; that Normalize keeps it needs a queue-order invariant (an unfinished attempt queue is the last
+   queue of its scenario) — StatsP3.path_order_preserved *)
+Theorem C11_path_order_preserved :
+  forall es f r s, contract (map snd es) = true ->
+    filter (fun e => StatsP3.same_path f r s (snd e)) (concat (nrun es))
+    = filter (fun e => StatsP3.same_path f r s (snd e)) es.
+Proof. exact StatsP3.path_order_preserved. Qed.
+Print Assumptions C11_path_order_preserved.
